@@ -9,6 +9,7 @@ import (
 	_ "verifh/props/c06"
 	_ "verifh/props/c07"
 	_ "verifh/props/c08"
+	_ "verifh/props/c09"
 	_ "verifh/props/c11"
 	_ "verifh/props/c12"
 	_ "verifh/props/c13"
